@@ -19,5 +19,11 @@ Definition render_inv_update_loop : fdef :=
      f_body := [(SFor "pos" (XCallMethod (XName "value") "get_positions" []) [(SAssign (TName "$r") (XPrim "ddict.getdefault" [(XAttr (XName "self") "renderers"); (XBoolOp false [(XAttr (XName "self") "expand"); (XAttr (XAttr (XName "pos") "units") "currency")])])); (SExpr (XMethod (TName "$r") "update" [(XName "pos")])); (SAssign (TSelf "renderers") (XPrim "dict.set" [(XAttr (XName "self") "renderers"); (XBoolOp false [(XAttr (XName "self") "expand"); (XAttr (XAttr (XName "pos") "units") "currency")]); (XName "$r")]))])];
      f_gen := false |}.
 
+(* beanquery.query_render.InventoryRenderer.prepare: `if self.expand: self.maxwidth = self.renderers[self.expand].prepare()` (without the else branch and without the final `return super().prepare()`) *)
+Definition render_inv_prepare_expand : fdef :=
+  {| f_params := ["self"];
+     f_body := [(SIf (XAttr (XName "self") "expand") [(SAssign (TName "$r") (XPrim "ddict.getdefault" [(XAttr (XName "self") "renderers"); (XAttr (XName "self") "expand")])); (SAssign (TSelf "maxwidth") (XMethod (TName "$r") "prepare" [])); (SAssign (TSelf "renderers") (XPrim "dict.set" [(XAttr (XName "self") "renderers"); (XAttr (XName "self") "expand"); (XName "$r")]))] [])];
+     f_gen := false |}.
+
 Definition refs : list (nat * string) :=
   [].
